@@ -32,6 +32,7 @@ type Ctx struct {
 	Property  string
 	Profile   string
 	Tier      string
+	Scale     int // step-count multiplier of the profile (1 unless a "-deep" profile)
 	Known     map[string]bool // signatures of open known findings: counted, run continues
 	KnownHits map[string]int
 	Viol      *Violation // first unknown violation (ends the run)
@@ -106,11 +107,18 @@ type Profile struct {
 	Fault    bool
 	Run      func(c *Ctx)
 	Doc      string
+	// ThoroughOnly profiles are left out of the quick tier; Scale multiplies the
+	// number of scheduler steps of a run (0 = 1).
+	ThoroughOnly bool
+	Scale        int
 }
 
 // Execute runs a profile with the given chooser.
 func Execute(p *Profile, ch *chooser.Chooser, known map[string]bool, tier string, keepTrace bool) (res *Result) {
-	c := &Ctx{Ch: ch, Property: p.Property, Profile: p.Name, Tier: tier, Known: known, KnownHits: map[string]int{}, Stats: world.Stats{}}
+	c := &Ctx{Ch: ch, Property: p.Property, Profile: p.Name, Tier: tier, Known: known, KnownHits: map[string]int{}, Stats: world.Stats{}, Scale: p.Scale}
+	if c.Scale < 1 {
+		c.Scale = 1
+	}
 	if c.Known == nil {
 		c.Known = map[string]bool{}
 	}
